@@ -36,19 +36,22 @@
 (*                       needs compaction                                  *)
 (*              "l0limit" level 0 is taken whenever it has reached the     *)
 (*                       write-stall limit (it is what holds writers back) *)
+(*   RegisterRule "first" a stall waiter registers for wake-ups before it  *)
+(*                       reads the counts (stall.rs: `notified()` first)   *)
+(*              "late"   registers only when it awaits                     *)
 (*   LevelLoop  "once"   one round per wake-up                             *)
 (*              "stalled" keeps going while writers are held by the L0     *)
 (*                       limit                                             *)
 (***************************************************************************)
 EXTENDS Naturals, FiniteSets, Sequences
 
-CONSTANTS Writers, MemLimit, L0Trigger, L0Limit, NLevels, T1, Mult, MaxCommits, WakeRule, BottomRule, LevelLoop
+CONSTANTS Writers, MemLimit, L0Trigger, L0Limit, NLevels, T1, Mult, MaxCommits, WakeRule, BottomRule, LevelLoop, RegisterRule
 
 ASSUME /\ NLevels >= 2 /\ MemLimit >= 2 /\ L0Limit >= L0Trigger /\ L0Trigger >= 1 /\ T1 >= 1 /\ Mult >= 1
 
-VARIABLES fill, imm, lv, fpermit, lpermit, frun, lrun, fpc, lpc, wpc, shutdown, stop, cpc, commits, last
+VARIABLES fill, imm, lv, fpermit, lpermit, frun, lrun, fpc, lpc, wpc, sig, shutdown, stop, cpc, commits, last
 
-vars == <<fill, imm, lv, fpermit, lpermit, frun, lrun, fpc, lpc, wpc, shutdown, stop, cpc, commits, last>>
+vars == <<fill, imm, lv, fpermit, lpermit, frun, lrun, fpc, lpc, wpc, sig, shutdown, stop, cpc, commits, last>>
 
 Bottom == NLevels - 1
 Levels == 0 .. Bottom
@@ -89,14 +92,17 @@ Round(l, s) ==
 
 Stalled(i, l) == i >= MemLimit \/ l[0] >= L0Limit
 
-\* stall.rs signal_work_done / signal_shutdown: notify_waiters - every waiter re-checks
+\* stall.rs signal_work_done / signal_shutdown: notify_waiters - every waiter re-checks. A writer that has decided to
+\* wait but does not await yet ("decided") is a waiter already: its Notified future was created before it read the counts
+\* (RegisterRule "first"; with "late" the future is created only at the await and such a signal is lost).
 Signal(w) == [x \in Writers |-> IF w[x] = "stalled" THEN "check" ELSE w[x]]
+SigSet(s) == [x \in Writers |-> IF wpc[x] = "decided" /\ RegisterRule = "first" THEN TRUE ELSE s[x]]
 
 Init ==
   /\ fill = 0 /\ imm = 0 /\ lv = [i \in Levels |-> 0]
   /\ fpermit = FALSE /\ lpermit = TRUE          \* Core::new wakes the level task once
   /\ frun = FALSE /\ lrun = FALSE /\ fpc = "wait" /\ lpc = "wait"
-  /\ wpc = [w \in Writers |-> "idle"]
+  /\ wpc = [w \in Writers |-> "idle"] /\ sig = [w \in Writers |-> FALSE]
   /\ shutdown = FALSE /\ stop = FALSE /\ cpc = "open" /\ commits = 0
   /\ last = [w \in Writers |-> "none"]
 
@@ -109,16 +115,24 @@ Begin(w) ==
   /\ commits' = commits + 1
   /\ IF shutdown THEN /\ last' = [last EXCEPT ![w] = "err"] /\ UNCHANGED wpc
      ELSE /\ wpc' = [wpc EXCEPT ![w] = "check"] /\ UNCHANGED last
-  /\ UNCHANGED <<fill, imm, lv, fpermit, lpermit, frun, lrun, fpc, lpc, shutdown, stop, cpc>>
+  /\ UNCHANGED <<fill, imm, lv, fpermit, lpermit, frun, lrun, fpc, lpc, shutdown, stop, cpc, sig>>
 
 \* write_stall.check(): the Notified future exists before the counts are read, so a signal that
 \* arrives after the read still wakes this waiter - reading and registering are one step
 Check(w) ==
   /\ wpc[w] = "check"
   /\ IF shutdown THEN /\ wpc' = [wpc EXCEPT ![w] = "idle"] /\ last' = [last EXCEPT ![w] = "err"]
-     ELSE IF Stalled(imm, lv) THEN /\ wpc' = [wpc EXCEPT ![w] = "stalled"] /\ UNCHANGED last
+     ELSE IF Stalled(imm, lv) THEN /\ wpc' = [wpc EXCEPT ![w] = "decided"] /\ UNCHANGED last
      ELSE /\ wpc' = [wpc EXCEPT ![w] = "permit"] /\ UNCHANGED last
+  /\ sig' = [sig EXCEPT ![w] = FALSE]
   /\ UNCHANGED <<fill, imm, lv, fpermit, lpermit, frun, lrun, fpc, lpc, shutdown, stop, cpc, commits>>
+
+\* `notified.await`: returns at once if a signal came since the future was created
+Await(w) ==
+  /\ wpc[w] = "decided"
+  /\ wpc' = [wpc EXCEPT ![w] = IF sig[w] THEN "check" ELSE "stalled"]
+  /\ sig' = [sig EXCEPT ![w] = FALSE]
+  /\ UNCHANGED <<fill, imm, lv, fpermit, lpermit, frun, lrun, fpc, lpc, shutdown, stop, cpc, commits, last>>
 
 WakeFlush == IF WakeRule = "always" \/ ~frun THEN fpermit' = TRUE ELSE UNCHANGED fpermit
 
@@ -128,7 +142,7 @@ Write(w) ==
   /\ wpc' = [wpc EXCEPT ![w] = "idle"] /\ last' = [last EXCEPT ![w] = "ok"]
   /\ IF fill = 1 THEN /\ imm' = imm + 1 /\ WakeFlush /\ UNCHANGED fill
      ELSE /\ fill' = 1 /\ UNCHANGED <<imm, fpermit>>
-  /\ UNCHANGED <<lv, lpermit, frun, lrun, fpc, lpc, shutdown, stop, cpc, commits>>
+  /\ UNCHANGED <<lv, lpermit, frun, lrun, fpc, lpc, shutdown, stop, cpc, commits, sig>>
 
 ----------------------------------------------------------------------------
 (* flush task *)
@@ -137,33 +151,33 @@ Write(w) ==
 FNotified ==
   /\ fpc = "wait" /\ fpermit
   /\ fpermit' = FALSE /\ fpc' = "woken"
-  /\ UNCHANGED <<fill, imm, lv, lpermit, frun, lrun, lpc, wpc, shutdown, stop, cpc, commits, last>>
+  /\ UNCHANGED <<fill, imm, lv, lpermit, frun, lrun, lpc, wpc, shutdown, stop, cpc, commits, last, sig>>
 
 \* `if stop_flag { break }`, else `running = true`
 FWake ==
   /\ fpc = "woken"
   /\ IF stop THEN fpc' = "exit" /\ UNCHANGED frun ELSE fpc' = "start" /\ frun' = TRUE
-  /\ UNCHANGED <<fill, imm, lv, fpermit, lpermit, lrun, lpc, wpc, shutdown, stop, cpc, commits, last>>
+  /\ UNCHANGED <<fill, imm, lv, fpermit, lpermit, lrun, lpc, wpc, shutdown, stop, cpc, commits, last, sig>>
 
 \* compact_memtable (flush the oldest immutable, if any) + signal_work_done
 FlushOne ==
   /\ IF imm > 0 THEN imm' = imm - 1 /\ lv' = [lv EXCEPT ![0] = @ + 1] ELSE UNCHANGED <<imm, lv>>
-  /\ wpc' = Signal(wpc)
+  /\ wpc' = Signal(wpc) /\ sig' = SigSet(sig)
 
 FFirst ==
   /\ fpc = "start" /\ FlushOne /\ fpc' = "one"
-  /\ UNCHANGED <<fill, fpermit, lpermit, frun, lrun, lpc, shutdown, stop, cpc, commits, last>>
+  /\ UNCHANGED <<fill, fpermit, lpermit, frun, lrun, lpc, shutdown, stop, cpc, commits, last, sig>>
 
 \* has_pending_immutables(): flush the next one, or leave the loop and wake the level task
 FMore ==
   /\ fpc = "one"
   /\ IF imm > 0 THEN /\ FlushOne /\ UNCHANGED <<fpc, lpermit>>
-     ELSE /\ fpc' = "idle" /\ lpermit' = TRUE /\ UNCHANGED <<imm, lv, wpc>>
-  /\ UNCHANGED <<fill, fpermit, frun, lrun, lpc, shutdown, stop, cpc, commits, last>>
+     ELSE /\ fpc' = "idle" /\ lpermit' = TRUE /\ UNCHANGED <<imm, lv, wpc, sig>>
+  /\ UNCHANGED <<fill, fpermit, frun, lrun, lpc, shutdown, stop, cpc, commits, last, sig>>
 
 FIdle ==
   /\ fpc = "idle" /\ fpc' = "wait" /\ frun' = FALSE
-  /\ UNCHANGED <<fill, imm, lv, fpermit, lpermit, lrun, lpc, wpc, shutdown, stop, cpc, commits, last>>
+  /\ UNCHANGED <<fill, imm, lv, fpermit, lpermit, lrun, lpc, wpc, shutdown, stop, cpc, commits, last, sig>>
 
 ----------------------------------------------------------------------------
 (* level task *)
@@ -171,12 +185,12 @@ FIdle ==
 LNotified ==
   /\ lpc = "wait" /\ lpermit
   /\ lpermit' = FALSE /\ lpc' = "woken"
-  /\ UNCHANGED <<fill, imm, lv, fpermit, frun, lrun, fpc, wpc, shutdown, stop, cpc, commits, last>>
+  /\ UNCHANGED <<fill, imm, lv, fpermit, frun, lrun, fpc, wpc, shutdown, stop, cpc, commits, last, sig>>
 
 LWake ==
   /\ lpc = "woken"
   /\ IF stop THEN lpc' = "exit" /\ UNCHANGED lrun ELSE lpc' = "start" /\ lrun' = TRUE
-  /\ UNCHANGED <<fill, imm, lv, fpermit, lpermit, frun, fpc, wpc, shutdown, stop, cpc, commits, last>>
+  /\ UNCHANGED <<fill, imm, lv, fpermit, lpermit, frun, fpc, wpc, shutdown, stop, cpc, commits, last, sig>>
 
 \* core.compact(strategy): pick_levels under the manifest lock, merge, signal_work_done
 LRound ==
@@ -184,48 +198,48 @@ LRound ==
   /\ LET nl == IF HasPick(lv) THEN Round(lv, Pick(lv)) ELSE lv IN
      /\ lv' = nl
      /\ lpc' = IF LevelLoop = "stalled" /\ HasPick(lv) /\ nl[0] >= L0Limit /\ nl # lv THEN "start" ELSE "idle"
-  /\ wpc' = Signal(wpc)
+  /\ wpc' = Signal(wpc) /\ sig' = SigSet(sig)
   /\ UNCHANGED <<fill, imm, fpermit, lpermit, frun, lrun, fpc, shutdown, stop, cpc, commits, last>>
 
 LIdle ==
   /\ lpc = "idle" /\ lpc' = "wait" /\ lrun' = FALSE
-  /\ UNCHANGED <<fill, imm, lv, fpermit, lpermit, frun, fpc, wpc, shutdown, stop, cpc, commits, last>>
+  /\ UNCHANGED <<fill, imm, lv, fpermit, lpermit, frun, fpc, wpc, shutdown, stop, cpc, commits, last, sig>>
 
 ----------------------------------------------------------------------------
 (* close *)
 
 CloseBegin ==
   /\ cpc = "open" /\ cpc' = "drain"
-  /\ shutdown' = TRUE /\ wpc' = Signal(wpc)
+  /\ shutdown' = TRUE /\ wpc' = Signal(wpc) /\ sig' = SigSet(sig)
   /\ UNCHANGED <<fill, imm, lv, fpermit, lpermit, frun, lrun, fpc, lpc, stop, commits, last>>
 
 \* commit_pipeline.drain(): the commits in flight (holding a permit) finish first
 CloseDrain ==
   /\ cpc = "drain" /\ \A w \in Writers : wpc[w] # "permit"
   /\ cpc' = "stop"
-  /\ UNCHANGED <<fill, imm, lv, fpermit, lpermit, frun, lrun, fpc, lpc, wpc, shutdown, stop, commits, last>>
+  /\ UNCHANGED <<fill, imm, lv, fpermit, lpermit, frun, lrun, fpc, lpc, wpc, shutdown, stop, commits, last, sig>>
 
 \* TaskManager::stop: stop flag, one notification each
 CloseStop ==
   /\ cpc = "stop" /\ cpc' = "waitrun"
   /\ stop' = TRUE /\ fpermit' = TRUE /\ lpermit' = TRUE
-  /\ UNCHANGED <<fill, imm, lv, frun, lrun, fpc, lpc, wpc, shutdown, commits, last>>
+  /\ UNCHANGED <<fill, imm, lv, frun, lrun, fpc, lpc, wpc, shutdown, commits, last, sig>>
 
 CloseWaitRun ==
   /\ cpc = "waitrun" /\ ~frun /\ ~lrun /\ cpc' = "join"
-  /\ UNCHANGED <<fill, imm, lv, fpermit, lpermit, frun, lrun, fpc, lpc, wpc, shutdown, stop, commits, last>>
+  /\ UNCHANGED <<fill, imm, lv, fpermit, lpermit, frun, lrun, fpc, lpc, wpc, shutdown, stop, commits, last, sig>>
 
 CloseJoin ==
   /\ cpc = "join" /\ fpc = "exit" /\ lpc = "exit" /\ cpc' = "done"
-  /\ UNCHANGED <<fill, imm, lv, fpermit, lpermit, frun, lrun, fpc, lpc, wpc, shutdown, stop, commits, last>>
+  /\ UNCHANGED <<fill, imm, lv, fpermit, lpermit, frun, lrun, fpc, lpc, wpc, shutdown, stop, commits, last, sig>>
 
 ----------------------------------------------------------------------------
 Task == FNotified \/ FWake \/ LNotified \/ FFirst \/ FMore \/ FIdle \/ LWake \/ LRound \/ LIdle
 Close == CloseBegin \/ CloseDrain \/ CloseStop \/ CloseWaitRun \/ CloseJoin
-Next == (\E w \in Writers : Begin(w) \/ Check(w) \/ Write(w)) \/ Task \/ Close
+Next == (\E w \in Writers : Begin(w) \/ Check(w) \/ Await(w) \/ Write(w)) \/ Task \/ Close
 
 Fairness ==
-  /\ \A w \in Writers : WF_vars(Check(w)) /\ WF_vars(Write(w))
+  /\ \A w \in Writers : WF_vars(Check(w)) /\ WF_vars(Await(w)) /\ WF_vars(Write(w))
   /\ WF_vars(FNotified) /\ WF_vars(LNotified)
   /\ WF_vars(FWake) /\ WF_vars(FFirst) /\ WF_vars(FMore) /\ WF_vars(FIdle)
   /\ WF_vars(LWake) /\ WF_vars(LRound) /\ WF_vars(LIdle)
@@ -240,7 +254,7 @@ TypeOK ==
   /\ fill \in 0 .. 1 /\ imm \in Nat /\ lv \in [Levels -> Nat]
   /\ fpermit \in BOOLEAN /\ lpermit \in BOOLEAN /\ frun \in BOOLEAN /\ lrun \in BOOLEAN
   /\ fpc \in {"wait", "woken", "start", "one", "idle", "exit"} /\ lpc \in {"wait", "woken", "start", "idle", "exit"}
-  /\ wpc \in [Writers -> {"idle", "check", "stalled", "permit"}]
+  /\ wpc \in [Writers -> {"idle", "check", "decided", "stalled", "permit"}] /\ sig \in [Writers -> BOOLEAN]
   /\ cpc \in {"open", "drain", "stop", "waitrun", "join", "done"}
 
 \* The safety core of "no lost wake-up": work that holds writers back is always either being done or scheduled.
@@ -257,7 +271,7 @@ ImmBounded == imm <= MemLimit - 1 + Cardinality(Writers)
 \* a state in which nothing but Begin/Close can ever happen while a writer waits
 Stuck ==
   /\ \E w \in Writers : wpc[w] = "stalled"
-  /\ ~ENABLED (Task \/ (\E w \in Writers : Check(w) \/ Write(w)))
+  /\ ~ENABLED (Task \/ (\E w \in Writers : Check(w) \/ Await(w) \/ Write(w)))
 NeverStuck == ~shutdown => ~Stuck
 
 \* C17: every commit() returns, close() returns
